@@ -130,7 +130,7 @@ def audit_axioms(module, theorems):
 HARNESS_VARIANTS = {
     # name: (compiler, flags)
     'san': ('g++', ['-O1', '-g', '-fsanitize=address,undefined', '-fsanitize-recover=undefined',
-                    '-fno-sanitize=vptr', '-fno-omit-frame-pointer']),
+                    '-fno-sanitize=vptr', '-fno-omit-frame-pointer', '-DNDEBUG']),
     'san_assert': ('g++', ['-O1', '-g', '-fsanitize=address,undefined', '-fsanitize-recover=undefined',
                            '-fno-sanitize=vptr', '-fno-omit-frame-pointer', '-UNDEBUG']),
     'ubsan': ('g++', ['-O1', '-g', '-fsanitize=undefined', '-fsanitize-recover=undefined', '-fno-sanitize=vptr']),
@@ -212,41 +212,46 @@ SAN_ENV = {'ASAN_OPTIONS': 'detect_leaks=0:abort_on_error=0:exitcode=66:allocato
            'UBSAN_OPTIONS': 'print_stacktrace=0'}
 
 
-def run_lines(exe, lines, env=None, timeout=600, per_line_timeout=10):
+DEF_OPS = ('zone ', 'fixzone ', 'namezone ')
+
+
+def run_lines(exe, lines, env=None, timeout=900, per_line_timeout=10, block_starts=None):
     """Feed op lines; returns list of output lines (same length).  A crash (ASan report,
-    abort, timeout) on line k yields 'CRASH <reason>' for that line and the run resumes after it."""
+    abort, timeout) on line k yields 'CRASH <reason>' for that line and the run resumes after it;
+    the zone definitions of the block containing k are replayed first (their output discarded)."""
+    import bisect as _b
     res = []
     e = dict(SAN_ENV)
     if env: e.update(env)
     start = 0
     n = len(lines)
     linebuf = False
+    prefix = []
     while start < n:
         ee = dict(e)
         if linebuf: ee['HARNESS_LINEBUF'] = '1'
-        data = ('\n'.join(lines[start:]) + '\n').encode()
+        data = ('\n'.join(prefix + lines[start:]) + '\n').encode()
         try:
             p = subprocess.run([exe], input=data, stdout=subprocess.PIPE, stderr=subprocess.PIPE,
-                               env={**os.environ, **ee}, timeout=(per_line_timeout * 3 if linebuf else timeout))
+                               env={**os.environ, **ee}, timeout=(max(30, per_line_timeout * 3) if linebuf else timeout))
             outs = p.stdout.decode('utf-8', 'replace').split('\n')
             rc = p.returncode
             err = p.stderr.decode('utf-8', 'replace')
         except subprocess.TimeoutExpired as t:
             outs = (t.stdout or b'').decode('utf-8', 'replace').split('\n')
+            if outs and not (t.stdout or b'').endswith(b'\n'): outs[-1] = ''   # partial line
             rc = -999
             err = 'timeout'
         if outs and outs[-1] == '': outs.pop()
+        outs = outs[len(prefix):] if len(outs) >= len(prefix) else []
         if rc == 0 and len(outs) == n - start:
             res.extend(outs)
             break
         if not linebuf:
-            # re-run the remainder line-buffered so that the crashing line is identified
-            got = 0 if rc != 0 else len(outs)
-            linebuf = True
             if rc == 0:
                 raise RuntimeError('harness produced %d lines for %d ops' % (len(outs), n - start))
+            linebuf = True      # re-run the remainder line-buffered so that the crashing line is identified
             continue
-        # line-buffered: outs are complete lines for ops that finished
         res.extend(outs[:n - start])
         k = start + len(outs)
         if k < n:
@@ -256,10 +261,17 @@ def run_lines(exe, lines, env=None, timeout=600, per_line_timeout=10):
             m2 = re.search(r'#\d+ 0x[0-9a-f]+ in (\S+) .*?/(src|include/cctz)/', err)
             if m2: reason += ':' + m2.group(1)
             if 'Assertion' in err:
-                m3 = re.search(r'Assertion `([^\']*)\' failed', err)
+                m3 = re.search(r"Assertion `([^']*)' failed", err)
                 reason = 'assert:' + (m3.group(1).replace(' ', '') if m3 else '?')
             res.append('CRASH ' + reason)
             start = k + 1
+            s0 = 0
+            if block_starts:
+                j = _b.bisect_right(block_starts, k) - 1
+                s0 = block_starts[j] if j >= 0 else 0
+                prefix = [l for l in lines[s0:k] if l.startswith(DEF_OPS)]
+            else:
+                prefix = []
         else:
             break
         linebuf = False
